@@ -9,6 +9,7 @@ mod matrix;
 mod out;
 mod prep;
 mod replay;
+mod rerun;
 mod sink;
 
 use drive::Tier;
@@ -100,6 +101,11 @@ fn main() {
             let shards: usize = arg(&args, "--shards", "6").parse().expect("shards");
             let per: usize = arg(&args, "--per", "5").parse().expect("per");
             replay::replay_hist_stdin(&prop, dbg, profile, &out, shards, per);
+        }
+        "rerun" => {
+            let file = args.get(2).expect("usage: rerun FILE --out TRACE").clone();
+            let out = arg(&args, "--out", "out/rerun.ndjson");
+            rerun::rerun(&file, dbg, &out);
         }
         "replay-iter" => {
             let prop = args.get(2).expect("usage: replay-iter <PROP> --out DIR").clone();
